@@ -265,7 +265,7 @@ def gen_history(rng, tier, focus=None):
         elif op == "ser":
             v = pick_view()
             m = s.fresh_b()
-            h.append("ser %d %d %d" % (v, m, rng.randrange(2)))
+            h.append("ser %d %d %d" % (v, m, rng.choice([0, 1, 0, 1, 2, 9, 14, 65])))      # 0 bytes, 1 stream, h+1: bytes behind a header of h bytes
             s.blocks[m] = dict(kind="img", cfg=s.views[v]["cfg"], empty=None, size=0, wrapok=True)
         elif op in ("deser", "wrap", "wwrap"):
             c = [m for m, d in s.blocks.items() if d["wrapok"]]
